@@ -29,6 +29,31 @@ LIBS = ('base32::', 'base64::', 'z85::')
 from ..core import expr_subst_args as subst
 
 
+
+_TEXT_IDENTITY = ('::deref', '::to_string', '::to_owned', '::clone', '::as_str', '::as_ref', '::borrow', '::from', '::into', 'Try>::branch',
+                  'cell::Cell::to_xstr', 'state::State::pop_data', '::value', '::as_bytes')
+
+
+def _phi_alts(e):
+    """the alternatives a value can be (phi nodes opened, references looked through)"""
+    if isinstance(e, tuple) and e[0] in ('ref', 'deref') and len(e) > 1:
+        return _phi_alts(e[-1])
+    if isinstance(e, tuple) and e[0] == 'phi':
+        out = []
+        for a in e[1:]:
+            for x in (a if isinstance(a, (list, tuple)) and a and not isinstance(a[0], str) else [a]):
+                out += _phi_alts(x)
+        return out
+    return [e]
+
+
+def _text_as_read(e):
+    """e is the popped text itself: only conversions between string types stand between Cell::to_xstr and e"""
+    calls = [x[1] for x in expr_walk(e) if isinstance(x, tuple) and x and x[0] == 'call']
+    return any(c == 'cell::Cell::to_xstr' for c in calls) and all(any(c.endswith(t) for t in _TEXT_IDENTITY) for c in calls) \
+        and not any(isinstance(x, tuple) and x and x[0] == 'closure' for x in expr_walk(e))
+
+
 def lib_calls(fx, fn, actuals=None, depth=0, seen=()):
     """list of (lib callee, [arg exprs with constants substituted]) reached from fn through base_ext helpers"""
     f = _V[0](fn) if _V[0] is not None and fn in fx.fns else fx.fns.get(fn)
@@ -214,10 +239,24 @@ def check_decoder(rep, fx, name, dec):
         encs = [bb for bb, t in h.calls() if callee_of(t) == 'base32::encode']
         okret = [bb for (bb, i, cls, d) in return_defs(h) if cls == 'ok']
         cmp_guard = False
+        as_read = False
         for rb in okret:
             for (b2, e, side) in edge_guards(h, rb):
                 if isinstance(e, tuple) and e[0] == 'call' and 'cmp::PartialEq' in e[1] and 'base32::encode' in expr_str(e, -30):
                     cmp_guard = True
+                    # what the re-encoded text is compared with: for some alphabet (the ones without substitutions of their own)
+                    # it is the text as it was read - conversions between string types only, no mapping of characters
+                    for a in e[2]:
+                        if 'base32::encode' in expr_str(a, -30):
+                            continue
+                        if any(_text_as_read(alt) for alt in _phi_alts(a)):
+                            as_read = True
+        if encs and cmp_guard and not as_read:
+            rep.add('C18.R3', key + ':canonical-text-only', False,
+                    '%s compares the re-encoded bytes with a transformed text for every alphabet (no alternative of the compared value is the '
+                    'text as read): case folding or character mapping before the comparison admits text the encoder never writes, '
+                    '`"ieyq====" base32>` gives |41 31|' % short(h.name), h.name, decs[0][1].get('at'))
+            continue
         rep.add('C18.R3', key + ':canonical-text-only', bool(encs) and cmp_guard,
                 'the decoded bytes are encoded again and the Ok return depends on the comparison with the text' if encs and cmp_guard else
                 '%s returns what base32::decode yields without checking that the text is the canonical one: `"ieyq====" base32>` gives |41 31| '
@@ -236,3 +275,6 @@ def check_decoder(rep, fx, name, dec):
     rep.add('C18.R3', key + ':helper-maps-failure', maps,
             'library None/Err is mapped to Err and propagated to the word, which turns it into nil' if maps else
             'the failure value of the library decode call is not mapped to an error on the way to %s' % name, dec, f.j['span'])
+
+# as-built addendum
+EXPLANATION += ' As built (DESIGN 9.2): R1 tolerates a canonical re-encode inside a decoder. R3 also: a library decoder more lenient than its alphabet (base32, z85) sees the text only behind a test that admits canonical text only.'
